@@ -227,6 +227,33 @@ theorem wrong_key_rejected {K H C : Type} (A : Aead K (Aad H) C) (hfree : Aead.F
       simp [writeFrames, writeFrom] at h2
       exact absurd h2.1.1 (by decide)
 
+/-- The end-of-stream check over the `io.Reader` contract: whatever `(n, err)` a contract-abiding reader
+returns for the one-byte probe — data and `io.EOF` together, a short read, `(0, nil)` — the verdict "clean end"
+implies that NO byte is left in the stream; equivalently, any remaining byte is reported (as trailing data or as
+a stream that did not end). `n` is examined before `err` (`Tie.read_sites_n_first`). -/
+theorem eof_check_contract (rest : Bytes) (r : ReadRes) (hv : ValidRead rest 1 r) (h : requireEOF r = .clean) :
+    rest = [] := by
+  obtain ⟨hn, he⟩ := requireEOF_clean h
+  have := hv.2.2 he
+  exact List.eq_nil_of_length_eq_zero (by omega)
+
+/-- ... and the order matters: a check that looks at `err` first accepts a stream with a byte left, on a reader
+that returns its last byte together with `io.EOF` (`testing/iotest.DataErrReader`, HTTP bodies, decompressors). -/
+theorem eof_check_err_first_unsound :
+    ∃ (rest : Bytes) (r : ReadRes), rest ≠ [] ∧ ValidRead rest 1 r ∧ requireEOFErrFirst r = .clean :=
+  ⟨[7], ⟨1, true⟩, by simp, by simp [ValidRead], by decide⟩
+
+/-- `frames_authentic` whatever chunking the reader uses: if the envelope reader — with ANY contract-abiding
+answer to its end-of-stream probe — accepts, then the stream is exactly the written one and nothing follows the
+final frame. (The framing reads go through `io.ReadFull`, which is chunking-independent by its own contract.) -/
+theorem frames_authentic_any_reader {K H C : Type} (A : Aead K (Aad H) C) (hfree : Aead.Free A)
+    (k : K) (hh0 : H) (chunks : List Bytes) (hh : H) (fs : List (Frame C)) (tail : Tail) (ps : List Bytes)
+    (probe : Probe) (hprobe : probe.Valid)
+    (hauth : ∀ f ∈ fs, (∃ a p, f.ct = A.sealIt k a p) → f.ct ∈ cts (writeFrames A k hh0 chunks))
+    (hacc : readFramesVia A k hh probe 0 fs tail = .ok ps) :
+    hh = hh0 ∧ fs = writeFrames A k hh0 chunks ∧ tail = Tail.clean ∧ ps = chunks :=
+  frames_authentic A hfree k hh0 chunks hh fs tail ps hauth (readFramesVia_accept A k hh probe hprobe fs 0 tail ps hacc)
+
 /-! ## (a) `Load`: verification of ALL fragments precedes every write -/
 
 /-- `verify_before_write`: in the model of `Load` every `BatchOperation` comes after the successful
@@ -364,6 +391,115 @@ theorem count_edit_consistent_rejected {D R σ : Type} [DecidableEq D] (E : Load
     (load E m' dir).err.isSome = true ∧ ∀ ev ∈ (load E m' dir).trace, ev.isBatch = false := by
   refine ((manifest_edit_safe E m' dir).1 f' hf b hget).1 recs hdec ?_
   rcases hcount with h | h <;> omega
+
+/-- `manifest_decode_total_input`: `readManifest` consumes the WHOLE file. `parseValue` is any JSON value parser
+that reads a prefix (`hprefix`: what follows the value does not change the value). If manifest.json decodes to
+`m`, then the same file extended by `tail` decodes (to the same `m`) iff `tail` is JSON white space only — a stray
+brace, a NUL, garbage text or a whole second document make `Load` fail with no write. (`json.Unmarshal` on the
+whole byte slice: `Tie.json_decoders_total`.) -/
+theorem manifest_decode_total_input {D R σ : Type} [DecidableEq D] (E : LoadEnv D R σ)
+    (parseValue : Bytes → Option (Man D × Bytes))
+    (hprefix : ∀ bs m rest tail, parseValue bs = some (m, rest) → parseValue (bs ++ tail) = some (m, rest ++ tail))
+    (bs tail : Bytes) (m : Man D) (dir : Dir) (hdec : decodeWhole parseValue bs = some m) :
+    (tail.all isJsonSpace = true → decodeWhole parseValue (bs ++ tail) = some m) ∧
+    (tail.all isJsonSpace = false →
+      decodeWhole parseValue (bs ++ tail) = none ∧
+      (loadBytes E parseValue (bs ++ tail) dir).err = some .manifest ∧ (loadBytes E parseValue (bs ++ tail) dir).trace = []) := by
+  unfold decodeWhole at hdec
+  split at hdec
+  · cases hdec
+  · rename_i m0 rest hp
+    split at hdec
+    · rename_i hrest
+      injection hdec with hm
+      subst hm
+      have hp' := hprefix bs m0 rest tail hp
+      refine ⟨?_, ?_⟩
+      · intro ht
+        unfold decodeWhole
+        rw [hp']
+        simp [List.all_append, hrest, ht]
+      · intro ht
+        have hnone : decodeWhole parseValue (bs ++ tail) = none := by
+          unfold decodeWhole
+          rw [hp']
+          simp [List.all_append, hrest, ht]
+        refine ⟨hnone, ?_, ?_⟩ <;> simp [loadBytes, hnone]
+    · cases hdec
+
+/-- ids of the node records of ONE graph (all its fragments as they are in the directory) -/
+def graphNodeIds {D σ : Type} (E : LoadEnv D IdRec σ) (codec : Nat) (dir : Dir) (g : GraphM D) : List Str :=
+  nodeIdsOf (g.files.flatMap (recsOf E codec dir))
+
+/-- `preflight_is_per_graph`: the record-level preflight resolves ids per graph — its resolver starts empty
+for every graph (`Tie.verify_covers_all`: `newNodeIDResolver` is called inside the loop over graphs). If the
+preflight accepts, then in EVERY graph both endpoints of every edge record are ids of node records of the
+SAME graph; a node that exists only in an earlier or later graph of the collection does not count. Hence a
+re-hashed fragment with a cross-graph or nowhere-existing endpoint is refused before any write
+(`verify_before_write`), whatever the spelling of the ids (decimal, element id, UUID, zero padded). -/
+theorem preflight_is_per_graph {D : Type} [DecidableEq D] (E : LoadEnv D IdRec (List Str))
+    (hinit : E.init = []) (hcheck : E.check = idCheck) (codec : Nat) (dir : Dir) :
+    ∀ (gs : List (GraphM D)), verifyGraphs E codec dir gs = true →
+      ∀ g ∈ gs, ∀ f ∈ g.files, ∀ a b, IdRec.edge a b ∈ recsOf E codec dir f →
+        a ∈ graphNodeIds E codec dir g ∧ b ∈ graphNodeIds E codec dir g := by
+  intro gs
+  induction gs with
+  | nil => intro _ g hg; cases hg
+  | cons x gs ih =>
+    intro h g hg f hf a b hab
+    unfold verifyGraphs at h
+    split at h
+    · cases h
+    · rename_i s1 h1
+      rcases List.mem_cons.mp hg with e | e
+      · subst e
+        obtain ⟨_, h2, h3⟩ := verifyFrags_id E hcheck codec dir g.files E.init s1 h1
+        have := h3 f hf a b hab
+        have inNodes : ∀ y ∈ s1, y ∈ graphNodeIds E codec dir g := by
+          intro y hy
+          rcases h2 y hy with h | h
+          · rw [hinit] at h; cases h
+          · exact h
+        exact ⟨inNodes _ this.1, inNodes _ this.2⟩
+      · exact ih h g e f hf a b hab
+
+/-- `extracted_collection_verified`: if `validateExtractedCollection` accepts (and the manifest validates, which
+`readManifest` checks first), then for EVERY file entry of the manifest the extraction really tracked a file
+under the manifest's own spelling of the path (no zero-value default, no skipped entry) and its compressed
+size and digest are the manifest's — that is the very file `Load` will later read for this entry. A fragment
+that does not match its digest cannot be promoted, however its path is spelled (a spelling that is not
+already in sanitised form is simply refused). Source facts: `Tie.extracted_validation_keys`. -/
+theorem extracted_collection_verified {D : Type} [DecidableEq D] (emptySha : D) (m : Man D) (files : Tracked D)
+    (hval : m.validate emptySha = true) (hacc : validateExtracted emptySha m files = true) :
+    ∀ f ∈ m.files, files.get f.path = some (f.cbytes, f.sha) := by
+  intro f hf
+  unfold validateExtracted at hacc
+  split at hacc
+  · cases hacc
+  · simp only [Bool.and_eq_true, List.all_eq_true, decide_eq_true_eq] at hacc
+    obtain ⟨h1, h2⟩ := hacc.2 f hf
+    -- the manifest's digest is not the empty one, so the lookup did not fall back to the zero value
+    have hsha : f.sha ≠ emptySha := by
+      obtain ⟨g, hg, hfg⟩ := mem_files_iff.mp hf
+      unfold Man.validate at hval
+      simp only [Bool.and_eq_true, List.all_eq_true] at hval
+      have hgok := hval.2 g hg
+      unfold graphOk at hgok
+      simp only [Bool.and_eq_true, List.all_eq_true] at hgok
+      have := hgok.1.1.1.2 f hfg
+      unfold fragOk at this
+      simp only [Bool.and_eq_true, decide_eq_true_eq] at this
+      exact this.2
+    cases hget : files.get f.path with
+    | none =>
+      rw [hget] at h2
+      exact absurd h2.symm hsha
+    | some e =>
+      rw [hget] at h1 h2
+      simp only [Option.getD_some] at h1 h2
+      obtain ⟨e1, e2⟩ := e
+      simp only at h1 h2
+      rw [h1, h2]
 
 /-! ## (c) the staging protocol of `Unpack` -/
 
@@ -667,5 +803,39 @@ def demoManLowered : Man Bytes :=
 example : demoManLowered.validate demoEnv.emptySha = true := by decide
 example : (load demoEnv demoManLowered demoDir).err = some .verify ∧
     ((load demoEnv demoManLowered demoDir).trace.filter Ev.isBatch).length = 0 := by decide
+
+-- the per-graph preflight on ids that are not decimals: graph `h` has an edge to a node that exists in graph `g` only
+def idEnv : LoadEnv Bytes IdRec (List Str) where
+  hash b := b
+  emptySha := []
+  decode _ ph b := some (b.map (fun n =>
+    if ph = .nodes then IdRec.node ['4', ':', Char.ofNat (48 + n)] else IdRec.edge ['4', ':', Char.ofNat (48 + n / 10)] ['4', ':', Char.ofNat (48 + n % 10)]))
+  init := []
+  check := idCheck
+  targetEmpty _ := true
+  batchSize := 2
+
+def twoGraphs (edgeOfH : Nat) : Man Bytes :=
+  { codec := 1, graphCount := 2, schemaFor := [['g'], ['h']],
+    graphs := [{ name := ['g'], nodeCount := 2, edgeCount := 1,
+                 files := [{ path := ['a'], phase := .nodes, count := 2, cbytes := 2, sha := [1, 2] },
+                           { path := ['b'], phase := .edges, count := 1, cbytes := 1, sha := [12] }] },
+               { name := ['h'], nodeCount := 2, edgeCount := 1,
+                 files := [{ path := ['c'], phase := .nodes, count := 2, cbytes := 2, sha := [3, 4] },
+                           { path := ['d'], phase := .edges, count := 1, cbytes := 1, sha := [edgeOfH] }] }] }
+-- honest: h's edge 3 -> 4 joins h's own nodes
+example : (load idEnv (twoGraphs 34) [(['a'], [1, 2]), (['b'], [12]), (['c'], [3, 4]), (['d'], [34])]).err = none := by decide
+-- re-hashed tampering: h's edge 3 -> 1, node `4:1` exists in g only: refused by the preflight, no batch
+example : (load idEnv (twoGraphs 31) [(['a'], [1, 2]), (['b'], [12]), (['c'], [3, 4]), (['d'], [31])]).err = some .verify ∧
+    ((load idEnv (twoGraphs 31) [(['a'], [1, 2]), (['b'], [12]), (['c'], [3, 4]), (['d'], [31])]).trace.filter Ev.isBatch).length = 0 := by decide
+
+-- validateExtractedCollection: canonical spelling accepted, `./n` (same tar entry `n`) refused although the bytes match
+def oneFile (path : Str) : Man Bytes :=
+  { codec := 1, graphCount := 1, schemaFor := [['g']],
+    graphs := [{ name := ['g'], nodeCount := 1, edgeCount := 0,
+                 files := [{ path := path, phase := .nodes, count := 1, cbytes := 1, sha := [7] }] }] }
+example : validateExtracted [] (oneFile ['n']) [(manifestName, (9, [5])), (['n'], (1, [7]))] = true := by decide
+example : validateExtracted [] (oneFile ['.', '/', 'n']) [(manifestName, (9, [5])), (['n'], (1, [7]))] = false := by decide
+example : validateExtracted [] (oneFile ['n']) [(manifestName, (9, [5])), (['n'], (1, [8]))] = false := by decide
 
 end Dawgs.C20.Props
